@@ -312,7 +312,55 @@ func ruleAbortBeforeWrite(c *Ctx, r *Rep) {
 		r.Undecided("shape:cli-sign", c.FnPos(cli), "Open / PlanBulkUpdate / BulkUpdate calls not all found")
 		return
 	}
-	_ = host
+	// nothing ends the command successfully before the directory was opened (opening is what refuses a broken
+	// hierarchy): every normal return and every os.Exit(0) of the sequencing function lies behind the open step, and so
+	// does every call of a helper that can end the process with status 0
+	{
+		var early []string
+		exitsZero := func(f *ssa.Function) bool {
+			if f == nil || !c.InModule(f) || f.Blocks == nil {
+				return false
+			}
+			for _, ci := range callsIn(f) {
+				if calleeFullName(ci) == "os.Exit" {
+					if k, ok := ci.Common().Args[0].(*ssa.Const); ok && k.Value != nil && k.Int64() == 0 {
+						return true
+					}
+				}
+			}
+			return false
+		}
+		for _, b := range host.Blocks {
+			for _, ins := range b.Instrs {
+				switch x := ins.(type) {
+				case *ssa.Return:
+					if len(b.Preds) == 0 && b.Index != 0 {
+						continue // the recover block
+					}
+					if !instrDominates(open.site, x) {
+						early = append(early, "a return at "+c.Pos(x.Pos()))
+					}
+				case ssa.CallInstruction:
+					if x == ssa.CallInstruction(open.site) {
+						continue
+					}
+					zero := false
+					if calleeFullName(x) == "os.Exit" {
+						if k, ok := x.Common().Args[0].(*ssa.Const); ok && k.Value != nil && k.Int64() == 0 {
+							zero = true
+						}
+					}
+					if g := x.Common().StaticCallee(); g != nil && g != open.owner && exitsZero(g) {
+						zero = true
+					}
+					if zero && !instrDominates(open.site, x) {
+						early = append(early, "exit status 0 at "+c.Pos(x.Pos()))
+					}
+				}
+			}
+		}
+		r.Check(len(early) == 0, "cli-opens-first", c.Pos(open.site.Pos()), "the command cannot end successfully without having opened the directory", strings.Join(early, "; "))
+	}
 	for _, st := range []struct {
 		name string
 		this *cliStep
